@@ -11,7 +11,10 @@ correspondence(ctx): every primitive on generated valid encodings (boundary leng
   stream (truncations, extensions, flipped tag / length bytes, empty input); the key
   codecs on all 17 curves with the external functions (modular square root, scalar
   multiplication) recorded from the implementation's own run and supplied to the model
-  as finite oracle tables.
+  as finite oracle tables; numbertheory.jacobi / polynomial_* / square_root_mod_prime against
+  coq/Model/NumTheory.v (every prime below 300 exhaustively, the curve primes, composite and
+  malformed arguments with the exact exception kinds) and compressed points decoded through the
+  model's own square root (tools/props/c19_numtheory.py).
 search(ctx): the property predicate on the real implementation: the bytes of every encoding
   against an independent DER / SEC1 encoder; round trips through every encoding; every
   truncation and extension must be rejected with a documented error (UnexpectedDER,
@@ -32,6 +35,7 @@ import time
 
 from vlib import qbytes, qlist, qopt, run_impl, canon_exc
 import vlib
+from props import c19_numtheory
 
 
 def qN(n):
@@ -44,8 +48,10 @@ def qZ(n):
         return vlib.qZ(n)
     return "(0x%x)%%Z" % n if n >= 0 else "(Z.opp 0x%x%%Z)" % -n
 
-GEN_DEPS = ("Consts.v", "gen_consts", "KeyOids.v", "gen_keyoids")
-MODEL_TARGETS = ["Model/Der.vo", "Model/KeyCodec.vo"]
+GEN_DEPS = ("Consts.v", "gen_consts", "KeyOids.v", "gen_keyoids", "Curves.v", "gen_curves")
+# Properties/C19Big.vo: the statements over the certificates of the large numbers (all 17 field primes and
+# group orders); built by every run, outside the cone that the thorough tier re-checks with coqchk
+MODEL_TARGETS = ["Model/Der.vo", "Model/KeyCodec.vo", "Model/NumTheory.vo", "Properties/C19Big.vo"]
 IMPORTS = "From Bec2 Require Import Gen.Consts Gen.KeyOids Model.Der Model.KeyCodec."
 
 BOUNDARY_LENGTHS = (0, 1, 127, 128, 255, 256, 65535, 65536)
@@ -726,6 +732,13 @@ def corr_from_der(ctx, cs, which, c, valid, heavy):
 
 
 def correspondence(ctx):
+    correspondence_codecs(ctx)
+    # numbertheory.py (jacobi, polynomial_*, square_root_mod_prime) and compressed points decoded
+    # through the model's own square root
+    c19_numtheory.correspondence_nt(ctx, canon, impl, q_curve, qb, Recorder)
+
+
+def correspondence_codecs(ctx):
     cs = Cases(ctx)
     t0 = time.time()
     corr_der(ctx, cs)
@@ -1263,6 +1276,9 @@ def search(ctx):
         ctx.sample({"curve": c.name, "key": keys[0][0], "spki": keys[0][1].verifying_key.to_der()})
     # 1b. the ends of the scalar range: 1, 2, n-2, n-1 are keys; 0, n, n+1, 2^bits-1 are not
     search_scalar_range(S, plan, quick)
+    # 1c. compressed points: every point of small curves (all branches of the modular square root),
+    #     random points of the shipped curves in both parities, abscissae without a point
+    c19_numtheory.search_nt(ctx, S)
     # 2. bec2format through the plug-in (P-256)
     search_plugin(S)
     # 3. structural malformations of named-curve key files (elements deleted / emptied / shortened)
@@ -1295,6 +1311,12 @@ def search(ctx):
         search_openssl(S)
     ctx.extra["search_counts"] = {k: v for k, v in sorted(S.counts.items())}
     ctx.extra["rule"] = (
+        "correspondence (numbertheory.py): jacobi and square_root_mod_prime for every prime < 300 and every a in [0,p), composite "
+        "and out-of-range arguments (exact exception kinds), random odd n, random polynomials incl. malformed shapes, residues and "
+        "non-residues on the 17 curve primes; compressed strings through the model's own square root: every x on small curves "
+        "(p % 8 in {1,3,5,7}) and both parities / no point / bad tag on the shipped curves. search adds: every affine point of the "
+        "small curves and random points of the shipped curves (both parities, the point of order 2 of SECP112r2) survive "
+        "to_bytes('compressed') -> from_bytes; abscissae without a point are rejected. "
         "correspondence: every der.py primitive on generated valid encodings (lengths 0,1,127,128,255,256,65535,65536 and "
         "beyond, integers with the high bit set / leading zeros, OIDs with large arcs, bit strings in all three calling "
         "conventions) plus truncations, extensions, flipped tag/length bytes and empty input; util number/string codecs; "
@@ -1575,6 +1597,10 @@ def replay(ctx, data):
         d = f["data"]
         print("kind:", f["kind"])
         print(" detail:", f["detail"])
+        rn = c19_numtheory.replay_nt(I, f)
+        if rn is not None:
+            rc |= rn
+            continue
         dec = d.get("decoder")
         inp = d.get("input")
         if f["kind"].startswith("encoding-bytes") and d.get("public"):
